@@ -16,6 +16,14 @@ ALLOC = "function churn(n: number) { const junk: any[] = []; for (let i = 0; i <
 
 # natives that allocate while holding inputs, callbacks that allocate, getters, proxies, generators, promises …
 TEMPLATES = [
+    # natives that accumulate results while calling back: the callback takes the accepted element out of the source, so the pending result is its only holder
+    "const a: any[] = [1, 2, 3, 4].map(v => ({v, pad: [v]})); const r = a.filter((o, i) => { if (i > 0) { a[i - 1] = null; churn(40); } return true; }); churn(20); r.map(o => o.v + ':' + o.pad[0]).join(',')",
+    "const a: any[] = [1, 2, 3, 4].map(v => ({v, pad: [v]})); const r = a.map((o, i) => { if (i > 0) { a[i - 1] = null; } churn(40); return {w: o.v, q: [o.v]}; }); churn(20); r.map(o => o.w + ':' + o.q[0]).join(',')",
+    "const a: any[] = [1, 2, 3].map(v => ({v, pad: [v]})); const r = a.flatMap((o, i) => { if (i > 0) { a[i - 1] = null; } churn(40); return [o, {c: o.v}]; }); churn(20); r.map((o: any) => (o.v || o.c)).join(',') + r.length",
+    "const a: any[] = [3, 1, 2].map(v => ({v, pad: [v]})); const f = a.find((o, i) => { if (i === 1) { a[0] = null; churn(60); } return o.v === 2; }); const fl = a.findLast((o: any) => { churn(10); return o && o.v === 2; }); a.length = 0; churn(60); f.pad[0] + ':' + fl.pad[0]",
+    "const a: any[] = [1, 2, 3, 4].map(v => ({v})); const r = a.reduce((acc: any, o, i) => { a[i] = null; churn(30); return {sum: acc.sum + o.v, list: [...acc.list, {o}]}; }, {sum: 0, list: []}); churn(30); r.sum + ':' + r.list.map((x: any) => x.o.v).join('')",
+    "const src: any[] = [1, 2, 3].map(v => ({v, pad: [v]})); const s = new Set(src); src.length = 0; const out: any[] = []; s.forEach(o => { s.delete(o); churn(40); out.push(o); }); const m = new Map<any, any>([[{k: 1}, {val: [1]}], [{k: 2}, {val: [2]}]]); const got: any[] = []; m.forEach((v, k) => { m.delete(k); churn(40); got.push([k, v]); }); churn(20); out.map(o => o.pad[0]).join('') + got.map(e => e[0].k + ':' + e[1].val[0]).join(',')",
+    "const a: any[] = [1, 2, 3, 4].map(v => ({v, pad: [v]})); const r = a.toSorted((x, y) => { a.length = 0; churn(10); return y.v - x.v; }); const e = Object.entries({p: {x: [1]}, q: {x: [2]}}).map(([k, v]: any) => { churn(20); return k + v.x[0]; }); churn(20); r.map((o: any) => o.pad[0]).join('') + e.join('')",
     # combinators over DERIVED promises nobody else holds: the early results live only in the combinator's own state (found on the unchanged tree; fixed)
     "let r1: any, r2: any, r3: any; const p1 = new Promise(r => { r1 = r; }); const p2 = new Promise(r => { r2 = r; }); const p3 = new Promise(r => { r3 = r; }); const out: string[] = []; Promise.all([p1.then(v => ({s: [v]})), p2.then(v => ({s: [v, v]})), p3]).then(rs => out.push(JSON.stringify(rs))); r1(1); churn(60); r2(2); churn(60); r3({t: 3}); churn(20); out.join('')",
     "let r1: any, r2: any, j3: any; const p1 = new Promise(r => { r1 = r; }); const p2 = new Promise(r => { r2 = r; }); const p3 = new Promise((_, j) => { j3 = j; }); const out: string[] = []; Promise.allSettled([p1.then(v => ({s: v})), p2, p3]).then(rs => out.push(JSON.stringify(rs))); r1('a'); churn(80); j3({why: ['x']}); churn(80); r2({b: 2}); churn(20); Promise.any([new Promise((_, j) => { churn(30); j({e: 1}); }), p2.then(v => ({w: v}))]).then(v => out.push(JSON.stringify(v))); churn(40); out.join('|')",
